@@ -67,8 +67,29 @@ class Shape(Universe):
         return o
 
 
+class TwoCifs(Shape):
+    """the loop shape plus a second managed CIF with a loop of its own: an iteration over each may be open at the same time,
+    and neither may notice the other (each CIF has its own storage and its own transaction)"""
+
+    def __init__(self, *a):
+        super().__init__(*a)
+        self.name += '+second-cif'
+
+    def setup(self):
+        return super().setup() + [CifNew(1), BlkCreate(1, 'b', 'H5'), LoopCreate('H5', 'x', ('_a', '_b'), 'L5'),
+                                  LoopAddPkt('L5', (('_a', 'V2'), ('_b', 'V2'))), LoopAddPkt('L5', (('_a', 'V3'), ('_b', 'V1')))]
+
+    def ops(self, m):
+        o = super().ops(m)
+        if 'I1' in getattr(m, 'I', {}):
+            o += [ItrNext('I1', 'new'), ItrUpdate('I1', (('_a', 'NA'),)), ItrRemove('I1'), ItrEnd('I1', 'close'), ItrEnd('I1', 'abort')]
+        else:
+            o.append(ItrOpen('L5', 'I1'))
+        return o
+
+
 def shapes(tier):
-    out = []
+    out = [TwoCifs(2, 2, False, False)]
     for scalar in (False, True):
         for nitems in (1, 2, 3):
             for npk in (0, 1, 2, 3):
@@ -102,7 +123,7 @@ def main():
     print('  shapes=%d %s' % (len(per), tot), flush=True)
     return rep.finish({'states': tot['states'], 'transitions': tot['transitions'], 'traces_validated_against_impl': tot['transitions'],
                        'samples': samples[:6] or [['(none)']], 'depth_bound': depth, 'shapes': per, 'exhaustive': exhaustive,
-                       'explanation': 'all sequences of get_packets/next (new, NULL, into an existing packet with foreign items, into an empty packet)/update (8 packet shapes)/remove/close/abort, a second get_packets while one iterator is open (refused, and harmless) and follow-up calls up to the depth bound, for every loop shape; iterator life cycle of DESIGN.md Appendix B as reference'},
+                       'explanation': 'all sequences of get_packets/next (new, NULL, into an existing packet with foreign items, into an empty packet)/update (8 packet shapes)/remove/close/abort, a second get_packets while one iterator is open (refused, and harmless) and follow-up calls up to the depth bound, for every loop shape, and for one shape with a second CIF whose own iterator is opened, used and ended in between; iterator life cycle of DESIGN.md Appendix B as reference'},
                       ['delivery order is unspecified: delivered packets are matched by content', 'update/remove after CIF_FINISHED may answer CIF_MISUSE or act on the last delivered packet'])
 
 
